@@ -278,3 +278,50 @@ def pairing(ctx):
         fb = F.fn(key)
         bad = fb.calls(*REORDERING)
         ctx.check(not bad, key, 'points in list order', '%s reorders the tracing points (%s)' % (key, bad[0].name if bad else ''), 'iter().map(..)', fb.where())
+
+
+@rule('C17', 'verified-before-id-refresh', configs=('default', 'p256'))
+def verified_before_id_refresh(ctx):
+    """Identifiers recorded in the master key stay those of issued keys: refresh touches the registry (refresh_id) only after
+    the key passed the integrity check (C08.verify-first)."""
+    from . import c08
+    c08.verify_first(ctx)
+
+
+@rule('C17', 'tracing-level-floor')
+def tracing_level_floor(ctx):
+    """Identifiers are distinct only while at least one marker is drawn at random, i.e. while the tracing level stays >= 1:
+    a tracer is dropped (pop_front) only on the edge where the level is strictly above MIN_TRACING_LEVEL."""
+    F = ctx.F
+    key = 'core::TracingSecretKey::_decrease_tracing'
+    if key not in F.bodies:
+        ctx.ok(key, 'no decrease function', 'the tracing level cannot be decreased', '')
+        return
+    body = F.bodies[key]
+    pops = body.calls(r'LinkedList::<[^>]*>::(pop_front|pop_back)$')
+    minv = (F.consts.get('core::MIN_TRACING_LEVEL') or {}).get('v', 1)
+    for c in pops:
+        ok = False
+        for cmp_ in lib.comparisons(body):
+            sa = backward_slice(body, [cmp_['a']], follow_mutarg=False)
+            sb = backward_slice(body, [cmp_['b']], follow_mutarg=False)
+            lvl_a = bool(sa.has_call(r'tracing_level$'))
+            lvl_b = bool(sb.has_call(r'tracing_level$'))
+            ca, cb = lib.classify_scalar(body, cmp_['a']), lib.classify_scalar(body, cmp_['b'])
+            op = cmp_['op']
+            if lvl_b and not lvl_a:
+                op = {'Lt': 'Gt', 'Gt': 'Lt', 'Le': 'Ge', 'Ge': 'Le'}.get(op, op)
+                cc = ca
+            elif lvl_a:
+                cc = cb
+            else:
+                continue
+            if cc != ('const', minv):
+                continue
+            # level OP MIN
+            safe = {'Eq': cmp_['fe'], 'Ne': cmp_['te'], 'Gt': cmp_['te'], 'Le': cmp_['fe']}.get(op)
+            if safe is not None and body.edge_dominates(safe, c.b):
+                ok = True
+        ctx.check(ok, key, 'pop only above MIN_TRACING_LEVEL',
+                  'a tracer can be dropped (line %d) when the tracing level is already at its minimum: at level 0 no marker is random '
+                  'and every issued identifier is the same' % c.ln, 'guarded by level != / > MIN_TRACING_LEVEL', c.where())
